@@ -384,6 +384,26 @@ Proof.
 Qed.
 Print Assumptions C12_tree_height_total.
 
+(* Leaves may wrap ([WLeaf id wd len]: len cells of text, height
+   ceil(len / width) at the width offered) and a split may carry width= /
+   height= ([Over ow oh split]); [wf] asks len >= 0 and well-formed
+   override Dimensions.  A wrapping leaf's report is always a well-formed
+   Dimension ... *)
+Theorem C12_wrap_height_valid : forall len width, 0 <= len ->
+  exists d, wrap_height len width = COk d /\ valid d.
+Proof. exact wrap_height_valid. Qed.
+Print Assumptions C12_wrap_height_valid.
+
+(* ... and VSplit.preferred_height asks every child at ITS divided width:
+   10 cells of text next to a column of exact width 5, in 10 columns, are 2
+   rows high (at the whole width they would be 1) *)
+Example C12_tree_height_at_divided_width :
+  ph 100 (Node 1 3 (mkdim 0 0 0 1) [WLeaf 0 (mkdim 0 HUGE 0 1) 10; Leaf 1 (mkdim 5 5 5 1) (mkdim 0 HUGE 0 1)]) 10
+  = RDim (mkdim 0 HUGE 2 1) /\
+  wrap_height 10 10 = COk (mkdim 0 HUGE 1 1).
+Proof. split; vm_compute; reflexivity. Qed.
+Print Assumptions C12_tree_height_at_divided_width.
+
 (* Drawing.  Whatever write_to_screen draws for a nested layout at
    WritePosition(x, y, w, h) (any offsets, w, h >= 0, any nesting, any
    alignment / padding, app done or not): every region lies inside
